@@ -61,6 +61,8 @@ class LoopMixin:
             return "seq", SeqV(it.n, it.key)
         if isinstance(it, KSetV):
             return "kset", it
+        if type(it).__name__ == "SortedKeys":
+            return "sorted", it
         if isinstance(it, Sym) and it.kind == "opt":
             k = z3.Const("k!top", T.Key)
             return "kset", KSetV([("big", [k], T.haskey_top(it.term, k), [("one", k)])])
@@ -197,6 +199,9 @@ class LoopMixin:
             return self.comp_collect_concrete(out, kind)
         # symbolic domain
         ech = Env(env.module, env)
+        sorted_src = None
+        if domkind == "sorted":
+            sorted_src, dom, domkind = dom, dom.ks, "kset"
         bv, domc, elem, paths = self.generic_run(domkind, dom, lambda el: body(el, ech), ech)
         normal = [p for p in paths if p.kind == "ok"]
         exits = [p for p in paths if p.kind != "ok"]
@@ -213,6 +218,10 @@ class LoopMixin:
         if kind in ("list", "gen"):
             if len(ys) != len(normal):
                 raise Unsupported("filtered list comprehension over symbolic sequence")
+            if sorted_src is not None and len(ys) == 1 and ys[0].value[0] == "yield":
+                # [f(k) for k in sorted(S)]: the list of f(k) in increasing key order (order fixed by the set alone)
+                from .models import SortedMap
+                return SortedMap(dom, bv, ys[0].value[1])
             if domkind != "seq":
                 raise Unsupported("list comprehension over a set")
             if any(p.value[0] == "nested" for p in ys):
